@@ -240,6 +240,32 @@ class _CanonLoops(ast.NodeTransformer):
         return node
 
 
+class _CanonAnn(ast.NodeTransformer):
+    """inside a function ``x: T = E`` is read as ``x = E`` and a bare ``x: T`` as nothing (annotations of locals mean nothing at run time)"""
+
+    def __init__(self):
+        self.depth = 0
+
+    def visit_FunctionDef(self, node):
+        self.depth += 1
+        self.generic_visit(node)
+        self.depth -= 1
+        return node
+
+    def visit_ClassDef(self, node):
+        d, self.depth = self.depth, 0
+        self.generic_visit(node)
+        self.depth = d
+        return node
+
+    def visit_AnnAssign(self, node):
+        if self.depth and isinstance(node.target, ast.Name):
+            if node.value is None:
+                return ast.copy_location(ast.Pass(), node)
+            return ast.copy_location(ast.Assign(targets=[node.target], value=node.value), node)
+        return node
+
+
 class _CanonTernary(ast.NodeTransformer):
     """``x = A if c else B`` (a statement of its own) is read as ``if c: x = A  else: x = B``"""
 
@@ -251,7 +277,8 @@ class _CanonTernary(ast.NodeTransformer):
                 out = []
                 for st in v:
                     if isinstance(st, ast.Assign) and isinstance(st.value, ast.IfExp) and len(st.targets) == 1 \
-                            and isinstance(st.targets[0], ast.Name):
+                            and (isinstance(st.targets[0], ast.Name) or (isinstance(st.targets[0], ast.Attribute)
+                                                                      and isinstance(st.targets[0].value, ast.Name))):
                         import copy
                         a = ast.copy_location(ast.Assign(targets=[copy.deepcopy(st.targets[0])], value=st.value.body), st)
                         b = ast.copy_location(ast.Assign(targets=[copy.deepcopy(st.targets[0])], value=st.value.orelse), st)
@@ -388,6 +415,7 @@ class Program:
         self.inlined_helpers: dict[str, list] = {}
         for m in modules:
             self._load(m)
+        self._register_signatures()
 
     # ------------------------------------------------------------------ load
     def _load(self, name: str) -> None:
@@ -398,8 +426,8 @@ class Program:
             tree = ast.parse(src, filename=path)
             from .inline import inline_unknown_helpers
             tree, self.inlined_helpers[name] = inline_unknown_helpers(name, tree)
-            tree = ast.fix_missing_locations(_CanonRet().visit(_CanonAug().visit(tree)))
-            tree = ast.fix_missing_locations(_CanonLoops().visit(_CanonTernary().visit(_CanonInline().visit(tree))))
+            tree = ast.fix_missing_locations(_CanonRet().visit(_CanonAug().visit(_CanonAnn().visit(tree))))
+            tree = ast.fix_missing_locations(_CanonAug().visit(_CanonLoops().visit(_CanonTernary().visit(_CanonInline().visit(tree)))))
         except (OSError, SyntaxError) as e:
             raise AnalysisError(f'cannot parse {path}: {e}') from e
         mi = ModuleInfo(
@@ -461,6 +489,105 @@ class Program:
                 if st.value is not None:
                     ci.attrs[st.target.id] = st.value
         return ci
+
+    # ----------------------------------------------- keyword arguments -> positional
+    def _signature(self, ci_or_fn, bound: bool):
+        """positional parameter names of a function, or of the constructor of a class (dataclass fields in MRO order up to
+        the KW_ONLY sentinel); None when unknown"""
+        if isinstance(ci_or_fn, ClassInfo):
+            ci = ci_or_fn
+            init = self.resolve_method(ci, '__init__')
+            if init is not None:
+                return [p for p in init.pos_params if p != 'self']
+            if not any('dataclass' in ast.unparse(d) for c in self.mro(ci) for d in c.decorators):
+                return None
+            names = []
+            for c in reversed(self.mro(ci)):
+                kw_only = False
+                for st in c.node.body:
+                    if isinstance(st, ast.AnnAssign) and isinstance(st.target, ast.Name):
+                        ann = ast.unparse(st.annotation)
+                        if st.target.id == '_' and 'KW_ONLY' in ann:
+                            kw_only = True
+                            continue
+                        if 'ClassVar' in ann:
+                            continue
+                        if st.value is not None and isinstance(st.value, ast.Call) and ast.unparse(st.value.func) == 'field' \
+                                and any(k.arg == 'init' and isinstance(k.value, ast.Constant) and k.value.value is False for k in st.value.keywords):
+                            continue
+                        if st.target.id in names:
+                            continue
+                        if not kw_only:
+                            names.append(st.target.id)
+            return names
+        a = ci_or_fn.args
+        ps = [x.arg for x in a.posonlyargs + a.args]
+        return ps[1:] if bound and ps else ps
+
+    def _register_signatures(self) -> None:
+        """hand the positional parameter lists of the package's functions, classes and methods to the term normaliser, which
+        reads ``f(a, y=b)`` as ``f(a, b)`` when ``y`` is the next positional parameter - in the code and in the spec formulas alike"""
+        from . import terms as T
+        fns, meths = {}, {}
+        for mi in self.modules.values():
+            for name, fi in mi.functions.items():
+                fns.setdefault(name, []).append(self._signature(fi.node, bound=False))
+        for name, ci in self.classes.items():
+            sig = self._signature(ci, bound=False)
+            if sig is not None:
+                fns.setdefault(name, []).append(sig)
+            for mname, fi in ci.methods.items():
+                if not fi.is_property:
+                    meths.setdefault(mname, []).append(self._signature(fi.node, bound=not fi.is_staticmethod))
+        T.SIGNATURES = {k: v[0] for k, v in fns.items() if all(x == v[0] for x in v) and v[0]}
+        T.METHOD_SIGNATURES = {k: v[0] for k, v in meths.items() if all(x == v[0] for x in v) and v[0]}
+
+    def _canon_kwargs(self) -> None:
+        """``f(a, y=b)`` is read as ``f(a, b)`` when ``y`` is the next positional parameter of the resolved callee (methods through
+        the MRO, module-level functions and classes of the package, nested functions): how an argument is passed changes nothing"""
+        for mi in self.modules.values():
+            def visit(body, ci):
+                for st in body:
+                    if isinstance(st, ast.ClassDef):
+                        visit(st.body, self.classes.get(st.name))
+                    elif isinstance(st, ast.FunctionDef):
+                        self._canon_kwargs_fn(mi, ci, st)
+            visit(mi.tree.body, None)
+
+    def _canon_kwargs_fn(self, mi, ci, fn) -> None:
+        nested = {n.name: n for n in ast.walk(fn) if isinstance(n, ast.FunctionDef) and n is not fn}
+        for call in [n for n in ast.walk(fn) if isinstance(n, ast.Call)]:
+            if not call.keywords or any(k.arg is None for k in call.keywords) or any(isinstance(a, ast.Starred) for a in call.args):
+                continue
+            f = call.func
+            sig = None
+            if isinstance(f, ast.Attribute) and isinstance(f.value, ast.Name) and f.value.id in ('self', 'cls') and ci is not None:
+                m = self.resolve_method(ci, f.attr)
+                if m is not None and not m.is_property:
+                    sig = self._signature(m.node, bound=not m.is_staticmethod)
+            elif isinstance(f, ast.Name):
+                if f.id in nested:
+                    sig = self._signature(nested[f.id], bound=False)
+                elif f.id in self.classes and (f.id in mi.classes or f.id in mi.imports):
+                    sig = self._signature(self.classes[f.id], bound=False)
+                elif f.id in mi.functions:
+                    sig = self._signature(mi.functions[f.id].node, bound=False)
+                elif f.id in mi.imports and mi.imports[f.id].startswith('pokerkit.'):
+                    mod, _, name = mi.imports[f.id].rpartition('.')
+                    tm = self.modules.get(mod.split('.')[-1])
+                    if tm is not None and name in tm.functions:
+                        sig = self._signature(tm.functions[name].node, bound=False)
+            if not sig:
+                continue
+            kws = {k.arg: k for k in call.keywords}
+            args = list(call.args)
+            i = len(args)
+            while i < len(sig) and sig[i] in kws:
+                args.append(kws.pop(sig[i]).value)
+                i += 1
+            if len(args) != len(call.args):
+                call.args = args
+                call.keywords = [k for k in call.keywords if k.arg in kws]
 
     # ------------------------------------------------------------- accessors
     def module(self, name: str) -> ModuleInfo:
